@@ -452,7 +452,7 @@ fn do_search(fields: &[&str], z: &ZobristHasher, out: &mut dyn Write) {
             "search panic={} consulted={} sends={} infos={} restored={}",
             res.is_err() as u8,
             consulted,
-            sends.join(","),
+            sends.join(";"),
             infos.join("|"),
             (before == after) as u8
         );
